@@ -32,6 +32,9 @@ pub struct EnumState {
     pub draws: u64,
     /// cut every execution after this many decisions (None = no cut)
     pub max_depth: Option<usize>,
+    /// choice-index path of every execution that has ended (in order)
+    pub paths: Vec<Vec<usize>>,
+    snapshotted: bool,
 }
 
 /// Independent exhaustive enumerator (explicit index/arity stack; successor computed when a new
@@ -55,6 +58,14 @@ impl EnumScheduler {
 }
 
 impl EnumState {
+    /// Record the path of the execution that just ended (idempotent per execution)
+    pub fn snapshot_if_needed(&mut self) {
+        if self.started && !self.snapshotted {
+            let p: Vec<usize> = self.path[..self.pos.min(self.path.len())].iter().map(|(i, _)| *i).collect();
+            self.paths.push(p);
+            self.snapshotted = true;
+        }
+    }
     /// Advance `path` to the next leaf in DFS order. Returns false if exhausted.
     fn advance(&mut self) -> bool {
         // truncate to what was actually visited in the last execution
@@ -72,6 +83,7 @@ impl EnumState {
 impl Scheduler for EnumScheduler {
     fn new_execution(&mut self) -> Option<Schedule> {
         let mut st = self.st.lock().unwrap();
+        st.snapshot_if_needed();
         if st.done || st.nondeterminism.is_some() {
             return None;
         }
@@ -85,6 +97,7 @@ impl Scheduler for EnumScheduler {
             }
         }
         st.started = true;
+        st.snapshotted = false;
         st.pos = 0;
         st.draws = 0;
         st.executions += 1;
@@ -155,6 +168,9 @@ pub enum Ev {
 #[derive(Debug, Default)]
 pub struct RecLog {
     pub events: Vec<Ev>,
+    /// the engine's own record (`CurrentSchedule::get_schedule()`) of the execution that ended just
+    /// before each `new_execution` call (entry 0 is whatever an earlier run left behind)
+    pub engine_schedules: Vec<Schedule>,
 }
 
 impl RecLog {
@@ -217,8 +233,12 @@ impl<S: Scheduler> Recorder<S> {
 
 impl<S: Scheduler> Scheduler for Recorder<S> {
     fn new_execution(&mut self) -> Option<Schedule> {
+        // the engine's thread-local schedule still belongs to the previous execution here
+        let prev = shuttle_engine::runtime::execution::CurrentSchedule::get_schedule();
         let r = self.inner.new_execution();
-        self.log.lock().unwrap().events.push(Ev::NewExec(r.as_ref().map(|s| s.seed)));
+        let mut l = self.log.lock().unwrap();
+        l.engine_schedules.push(prev);
+        l.events.push(Ev::NewExec(r.as_ref().map(|s| s.seed)));
         r
     }
     fn next_task(&mut self, runnable: &[&Task], current: Option<TaskId>, is_yielding: bool) -> Option<TaskId> {
@@ -387,5 +407,49 @@ impl Scheduler for Hostile {
     fn next_u64(&mut self) -> u64 {
         self.draws += 1;
         splitmix64(self.draws)
+    }
+}
+
+// ---------------------------------------------------------------------------------------------
+// Scheduler specifications (serialisable), so that cases can name the scheduler they ran under
+// ---------------------------------------------------------------------------------------------
+
+#[derive(Debug, Clone, PartialEq, Eq, serde::Serialize, serde::Deserialize)]
+pub enum SchedSpec {
+    Random { seed: u64, iters: usize },
+    Pct { seed: u64, depth: usize, iters: usize },
+    Urw { seed: u64, iters: usize },
+    Dfs { bound: Option<usize>, random_data: bool },
+    RoundRobin { iters: usize },
+    Hostile { kind: HostileKind, iters: usize },
+}
+
+impl SchedSpec {
+    pub fn build(&self) -> Box<dyn Scheduler + Send> {
+        use shuttle_schedulers::*;
+        match self {
+            SchedSpec::Random { seed, iters } => Box::new(RandomScheduler::new_from_seed(*seed, *iters)),
+            SchedSpec::Pct { seed, depth, iters } => Box::new(PctScheduler::new_from_seed(*seed, *depth, *iters)),
+            SchedSpec::Urw { seed, iters } => Box::new(UrwRandomScheduler::new_from_seed(*seed, *iters)),
+            SchedSpec::Dfs { bound, random_data } => Box::new(DfsScheduler::new(*bound, *random_data)),
+            SchedSpec::RoundRobin { iters } => Box::new(RoundRobinScheduler::new(*iters)),
+            SchedSpec::Hostile { kind, iters } => Box::new(Hostile::new(*kind, *iters)),
+        }
+    }
+    pub fn name(&self) -> &'static str {
+        match self {
+            SchedSpec::Random { .. } => "random",
+            SchedSpec::Pct { .. } => "pct",
+            SchedSpec::Urw { .. } => "urw",
+            SchedSpec::Dfs { .. } => "dfs",
+            SchedSpec::RoundRobin { .. } => "round_robin",
+            SchedSpec::Hostile { .. } => "hostile",
+        }
+    }
+    pub fn iters(&self) -> Option<usize> {
+        match self {
+            SchedSpec::Random { iters, .. } | SchedSpec::Pct { iters, .. } | SchedSpec::Urw { iters, .. } | SchedSpec::RoundRobin { iters } | SchedSpec::Hostile { iters, .. } => Some(*iters),
+            SchedSpec::Dfs { bound, .. } => *bound,
+        }
     }
 }
